@@ -140,7 +140,8 @@ def run(w: World, rep: Report):
               'the message is not exactly the concatenation of the selected fields starting from b\'\'')
 
     # ---- R2 -----------------------------------------------------------------
-    sw2 = SymWalk(cs.node)
+    scfg0 = w.cfg(cs)
+    sw2 = SymWalk(cs.node, guard_class=lambda c: scfg0.exc.guard_class('functions', c))
     allow_vars = _flag_vars_from_tape(w, cs)
     if not allow_vars:
         raise AnalysisError('OP_CHECK_SIG: allowed-flags decode not found')
@@ -159,12 +160,10 @@ def run(w: World, rep: Report):
     guards_found = {}
     scfg = w.cfg(cs)
     for e in sw2.events:
-        if e.kind != 'call':
+        if e.kind != 'guard':
             continue
-        cls = scfg.exc.guard_class('functions', e.node)
-        if not cls or not e.node.args:
-            continue
-        cond = e.expr.args[0]
+        cls = e.target
+        cond = e.expr
         m_allow = mask_of(cond, allow_vars)
         if m_allow is None:
             # single-guard idiom:  sert(sig_flag & ~allowable == 0)
@@ -176,7 +175,7 @@ def run(w: World, rep: Report):
                 mm = mask_of(x, sigflag_vars)
                 if mm is not None and p:
                     outer.append(mm[1])
-        guards_found.setdefault(m_allow[1], []).append((outer, cls, e.node.lineno))
+        guards_found.setdefault(m_allow[1], []).append((outer, cls, getattr(e.node, 'lineno', 0)))
     single = _single_subset_guard(sw2, scfg, sigflag_vars, allow_vars)
     for i in range(1, 9):
         m = 1 << (i - 1)
@@ -196,8 +195,7 @@ def run(w: World, rep: Report):
     # the guards precede message build and verify (structured order of events)
     first_build = min([e.seq for e in sw2.events if e.kind == 'call' and isinstance(e.node.func, ast.Name)
                        and e.node.func.id == gm.name] or [0])
-    last_guard = max([e.seq for e in sw2.events if e.kind == 'call' and scfg.exc.guard_class('functions', e.node)
-                      and e.node.args and mask_of(e.expr.args[0], allow_vars) is not None] or [0])
+    last_guard = max([e.seq for e in sw2.events if e.kind == 'guard' and mask_of(e.expr, allow_vars) is not None] or [0])
     ok = first_build > 0 and (single or 0 < last_guard < first_build)
     rep.check('C02.R2', f'functions.{cs.name}|checked-before-verification', ok, line=cs.node.lineno, file=REL,
               why='' if ok else 'the allowed-flag check does not precede message construction / verification')
@@ -323,7 +321,7 @@ def run(w: World, rep: Report):
             ok = False
             detail = ''
             for t in cfgh.nodes:
-                if t.kind != 'test' or t.guard is None:
+                if t.kind != 'test':
                     continue
                 txt = _resolve_txt(ast.unparse(t.ast).replace(' ', ''))
                 m = re.fullmatch(r'len\((\w+)\)==(\d+)', txt)
@@ -453,8 +451,8 @@ def _flag_vars_from_tape(w: World, fi) -> set[str]:
 def _single_subset_guard(sw, cfg, sigflag_vars, allow_vars) -> bool:
     """sert(sig_flag & ~allowable == 0) style."""
     for e in sw.events:
-        if e.kind == 'call' and cfg.exc.guard_class('functions', e.node) and e.node.args:
-            t = ast.unparse(e.node.args[0]).replace(' ', '')
+        if e.kind == 'guard':
+            t = ast.unparse(e.expr).replace(' ', '')
             for s in sigflag_vars:
                 for a in allow_vars:
                     if t in (f'{s}&~{a}==0', f'not{s}&~{a}', f'{s}&{a}=={s}', f'({s}&~{a})==0'):
